@@ -247,13 +247,26 @@ def restrict (sp : Params) : Params :=
   let ns := splitSlash (sp.getD "object_name" "")
   ((tys.zip ns).foldl (fun acc tn => acc.set tn.1 tn.2) sp).set "states_chain" (tys.getLast?.getD "")
 
+inductive Do | get | set | unset
+deriving DecidableEq, Repr
+
+/-- the `do` argument of `_state_check_chain` and the keys `f"{do}_state"`, `f"{do}_mode"`, `f"{do}_location"` -/
+def Do.stateKey : Do → String
+  | .get => "get_state" | .set => "set_state" | .unset => "unset_state"
+def Do.modeKey : Do → String
+  | .get => "get_mode" | .set => "set_mode" | .unset => "unset_mode"
+def Do.locKey : Do → String
+  | .get => "get_location" | .set => "set_location" | .unset => "unset_location"
+def Do.dMode : Do → String
+  | .get => dGetMode | .set => dSetMode | .unset => dUnsetMode
+
 /-- the parameter rewriting of `_state_check_chain` (everything before its `check_states` call) -/
-def chainParams (doOp : String) (sp : Params) : Params :=
-  let sp := sp.set "check_state" (sp.getD (doOp ++ "_state") "")
-  let sp := match sp.truthy (doOp ++ "_location") with
+def chainParams (d : Do) (sp : Params) : Params :=
+  let sp := sp.set "check_state" (sp.getD d.stateKey "")
+  let sp := match sp.truthy d.locKey with
     | some l => sp.set "show_location" l
     | none => sp
-  let sp := if doOp == "set" then (sp.set "check_opts" "soft_boot=yes").set "soft_boot" "yes"
+  let sp := if d = .set then (sp.set "check_opts" "soft_boot=yes").set "soft_boot" "yes"
     else (sp.set "check_opts" "soft_boot=no").set "soft_boot" "no"
   restrict sp
 
@@ -272,6 +285,21 @@ def rootPhase (b : String) (sp : Params) (c1 c2 : Char) (st : St) : Except Err (
     (.ok (some ()), bSetRoot b rp st)
   else (.ok (some ()), bGetRoot b sp st)
 
+/-- `check_opts` and `check_mode` get their defaults written back into the parameters -/
+def checkDefaults (sp : Params) : Params :=
+  (sp.set "check_opts" (sp.getD "check_opts" dCheckOpts)).set "check_mode" (sp.getD "check_mode" dCheckMode)
+
+/-- root prerequisite, then the lookup of the state itself -/
+def checkCore (b : String) (sp : Params) (state : String) (c1 c2 : Char) (st : St) : Except Err Bool × St :=
+  match rootPhase b sp c1 c2 st with
+  | (.error e, st) => (.error e, st)
+  | (.ok none, st) => (.ok false, st)
+  | (.ok (some _), st) =>
+    if roots.contains state then (.ok true, st)
+    else
+      let (names, st) := bShow b sp st
+      (.ok (names.contains state), st)
+
 /-- body of the loop of `check_states` for one yielded object; `.ok true` = go on with the next
 object (state exists or object skipped), `.ok false` = `return False` -/
 def checkOne (B : Backends) (sp : Params) (st : St) : Except Err Bool × St :=
@@ -282,8 +310,7 @@ def checkOne (B : Backends) (sp : Params) (st : St) : Except Err Bool × St :=
   match sp.truthy "check_state" with
   | none => (.ok true, st)
   | some state =>
-  let sp := sp.set "check_opts" (sp.getD "check_opts" dCheckOpts)
-  let sp := sp.set "check_mode" (sp.getD "check_mode" dCheckMode)
+  let sp := checkDefaults sp
   match backendOf B sp with
   | .error e => (.error e, st)
   | .ok (b, _) =>
@@ -293,14 +320,7 @@ def checkOne (B : Backends) (sp : Params) (st : St) : Except Err Bool × St :=
   match letters (sp.getD "check_mode" "") with
   | none => (.error .indexError, st)
   | some (c1, c2) =>
-  match rootPhase b sp c1 c2 st with
-  | (.error e, st) => (.error e, st)
-  | (.ok none, st) => (.ok false, st)
-  | (.ok (some _), st) =>
-    if roots.contains state then (.ok true, st)
-    else
-      let (names, st) := bShow b sp st
-      (.ok (names.contains state), st)
+  checkCore b sp state c1 c2 st
 
 def checkLoop (B : Backends) : List Params → St → Except Err Bool × St
   | [], st => (.ok true, st)
@@ -361,14 +381,6 @@ def unsetAct (b : String) (cp : Params) (state : String) (c1 c2 : Char) (exist :
     (.ok (), if roots.contains state then bUnsetRoot b cp st else bUnset b cp st)
   else (.error .invalidPolicy, st)
 
-inductive Do | get | set | unset
-deriving DecidableEq, Repr
-
-def Do.name : Do → String
-  | .get => "get" | .set => "set" | .unset => "unset"
-def Do.dMode : Do → String
-  | .get => dGetMode | .set => dSetMode | .unset => dUnsetMode
-
 def act (d : Do) (b : String) (sourced : Bool) (cp : Params) (state : String) (c1 c2 : Char)
     (exist : Bool) (st : St) : Except Err Unit × St :=
   match d with
@@ -376,17 +388,21 @@ def act (d : Do) (b : String) (sourced : Bool) (cp : Params) (state : String) (c
   | .set => setAct b sourced cp state c1 c2 exist st
   | .unset => unsetAct b cp state c1 c2 exist st
 
+/-- the parameters after the mode default is written back and `_state_check_chain` rewrote them; the nested
+`check_states` and all later backend calls see these -/
+def doParams (d : Do) (sp : Params) : Params :=
+  chainParams d (sp.set d.modeKey (sp.getD d.modeKey d.dMode))
+
 /-- body of the loop of `get_states` / `set_states` / `unset_states` for one yielded object -/
 def doOne (B : Backends) (d : Do) (sp : Params) (st : St) : Except Err Unit × St :=
   match guardSkip sp with
   | .error e => (.error e, st)
   | .ok true => (.ok (), st)
   | .ok false =>
-  match sp.truthy (d.name ++ "_state") with
+  match sp.truthy d.stateKey with
   | none => (.ok (), st)
   | some state =>
-  let sp := sp.set (d.name ++ "_mode") (sp.getD (d.name ++ "_mode") d.dMode)
-  let cp := chainParams d.name sp
+  let cp := doParams d sp
   match checkStates B cp st with
   | (.error e, st) => (.error e, st)
   | (.ok exist, st) =>
@@ -396,7 +412,7 @@ def doOne (B : Backends) (d : Do) (sp : Params) (st : St) : Except Err Unit × S
   match cp.get? "vms" with
   | none => (.error .paramNotFound, st)
   | some _ =>
-  match letters (cp.getD (d.name ++ "_mode") "") with
+  match letters (cp.getD d.modeKey "") with
   | none => (.error .indexError, st)
   | some (c1, c2) => act d b sourced cp state c1 c2 exist st
 
@@ -414,16 +430,27 @@ def doStates (B : Backends) (d : Do) (p : Params) (st : St) : Except Err Unit ×
 
 /-! ### `push_states`, `pop_states` -/
 
+/-- the parameters `push_states` hands to `set_states` for one object -/
+def pushParams (sp : Params) (state : String) : Params :=
+  let rp := (restrict sp).set "set_state" state
+  rp.set "set_mode" (rp.getD "push_mode" dPushMode)
+
+/-- the parameters `pop_states` hands to `get_states` … -/
+def popGetParams (sp : Params) (state : String) : Params :=
+  let rp := (restrict sp).set "get_state" state
+  rp.set "get_mode" (rp.getD "pop_mode" dPopGetMode)
+
+/-- … and then to `unset_states` (the same dictionary, further updated) -/
+def popUnsetParams (sp : Params) (state : String) : Params :=
+  let rp := (popGetParams sp state).set "unset_state" state
+  rp.set "unset_mode" (rp.getD "pop_mode" dPopUnsetMode)
+
 def pushOne (B : Backends) (sp : Params) (st : St) : Except Err Unit × St :=
   match sp.truthy "push_state" with
   | none => (.ok (), st)
   | some state =>
     if roots.contains state then (.ok (), st)
-    else
-      let rp := restrict sp
-      let rp := rp.set "set_state" state
-      let rp := rp.set "set_mode" (rp.getD "push_mode" dPushMode)
-      doStates B .set rp st
+    else doStates B .set (pushParams sp state) st
 
 def popOne (B : Backends) (sp : Params) (st : St) : Except Err Unit × St :=
   match sp.truthy "pop_state" with
@@ -431,39 +458,35 @@ def popOne (B : Backends) (sp : Params) (st : St) : Except Err Unit × St :=
   | some state =>
     if roots.contains state then (.ok (), st)
     else
-      let rp := restrict sp
-      let rp := rp.set "get_state" state
-      let rp := rp.set "get_mode" (rp.getD "pop_mode" dPopGetMode)
-      match doStates B .get rp st with
+      match doStates B .get (popGetParams sp state) st with
       | (.error e, st) => (.error e, st)
-      | (.ok _, st) =>
-        let rp := rp.set "unset_state" state
-        let rp := rp.set "unset_mode" (rp.getD "pop_mode" dPopUnsetMode)
-        doStates B .unset rp st
+      | (.ok _, st) => doStates B .unset (popUnsetParams sp state) st
 
 inductive Op | check | get | set | unset | push | pop
 deriving DecidableEq, Repr
 
+/-- the functions other than `check_states` return nothing: `true` stands for "returned" -/
+def liftUnit (r : Except Err Unit × St) : Except Err Bool × St :=
+  match r with
+  | (.error e, st) => (.error e, st)
+  | (.ok _, st) => (.ok true, st)
+
 /-- one call of a public function of `states/setup.py`; the Boolean is the result of `check_states`
 (`true` for the others) -/
 def runOp (B : Backends) (op : Op) (p : Params) (st : St) : Except Err Bool × St :=
-  let lift (r : Except Err Unit × St) : Except Err Bool × St :=
-    match r with
-    | (.error e, st) => (.error e, st)
-    | (.ok _, st) => (.ok true, st)
   match op with
   | .check => checkStates B p st
-  | .get => lift (doStates B .get p st)
-  | .set => lift (doStates B .set p st)
-  | .unset => lift (doStates B .unset p st)
+  | .get => liftUnit (doStates B .get p st)
+  | .set => liftUnit (doStates B .set p st)
+  | .unset => liftUnit (doStates B .unset p st)
   | .push =>
     match iterObjects p with
     | .error e => (.error e, st)
-    | .ok l => lift (loopM (pushOne B) l st)
+    | .ok l => liftUnit (loopM (pushOne B) l st)
   | .pop =>
     match iterObjects p with
     | .error e => (.error e, st)
-    | .ok l => lift (loopM (popOne B) l st)
+    | .ok l => liftUnit (loopM (popOne B) l st)
 
 /-- a sequence of calls; a raised exception ends one call, not the sequence (the caller catches it) -/
 def runSeq (B : Backends) : List (Op × Params) → St → St
